@@ -573,6 +573,8 @@ static int vs_bind(ares_socket_t s, unsigned int flags, const struct sockaddr *s
   return 0;
 }
 
+static void (*sim_connect_hook)(int fd, int srv, int is_tcp);
+
 static int vs_connect(ares_socket_t s, const struct sockaddr *sa, ares_socklen_t salen, unsigned int flags, void *ud)
 {
   int      e;
@@ -595,6 +597,9 @@ static int vs_connect(ares_socket_t s, const struct sockaddr *sa, ares_socklen_t
   si     = sim_find_srv(sa, v->is_tcp);
   v->srv = si;
   vh_trace("connect(%d) -> srv %d flags %u", (int)s, si, flags);
+  if (sim_connect_hook) {
+    sim_connect_hook((int)s, si, v->is_tcp);
+  }
   if (!v->is_tcp) {
     v->conn = VC_ESTABLISHED;
     return 0;
